@@ -5,7 +5,7 @@ import Proofs.Lemmas.LowerSearch
 
 `Regress.Lower.toIR` (`RegressModel/Spec/ToIR.lean`) is the IR that `parse.rs` builds for the
 pattern text of an ES AST (tied to the real parser by the `lower` differential, 0 differences on
-117 000 generated ASTs).  This file states that this IR *means* what the ECMAScript specification
+every run, last: 61 096 generated ASTs against the crate at commit 5913a34).  This file states that this IR *means* what the ECMAScript specification
 says the AST means: one anchored attempt of the specification's Matcher at code point index `i`
 (`ES.matchAt`, i.e. `CompilePattern` applied to `(Input, i)`) and one attempt of the IR semantics at
 the corresponding byte offset (`IR.firstMatch`) have the same outcome — both fail, or both succeed
@@ -18,7 +18,7 @@ iterations); the statement is: *whenever the specification does not run out of f
 agree (`ResRel` relates `outOfFuel` to everything).  By `ES.esExec_fuel_mono` a definite answer of
 the specification never depends on the fuel.
 
-Partial.  The theorem is proved for the fragment `supported` (stages A and B): characters, `.`,
+Partial.  The theorem is proved for the fragment `supported` (stages A to D): characters, `.`,
 `^ $ \b \B`, sequences, alternations (balanced `make_alt` tree against left-to-right priority),
 capture groups (named or not), non-capturing and modifier groups (`m`, `s`), look-ahead and
 look-behind (positive and negative; reversed concatenations, capture persistence), greedy and lazy
@@ -31,12 +31,15 @@ under `u` or `v` (stage C, `Canonicalize` = Unicode 17 simple case folding by `P
 literal characters (`unfold_char`), `.`, `\b \B`, case-insensitive back-references
 (`backref_icase`), class escapes, property escapes, brackets under `iu` (`add_icase_code_points`
 once, at the end) and class set expressions under `iv` (the specification's folded CharSets against
-`close_class_set_operand`); and (stage D, without `i`) `v`-mode classes with `\q{…}` strings
-(ordered choice by descending length, `ClassSet::node`).  Not yet covered (the statement is kept
-visible below): `\q{…}` strings together with `i`, properties of strings, and named back-references
-to duplicated names.  The input's `unicode` flag must be the pattern's
-(`inp.unicode = (f.u || f.v)`, as `Proofs/Keystone.lean` assumes too).  Legacy (non-`u`/`v`) `i` is excluded on purpose: the crate is known to differ from
-the specification there (finding F8).
+`close_class_set_operand`); and (stage D) `v`-mode classes with `\q{…}` strings, without `i`
+(ordered choice by descending length, `ClassSet::node`) and with `i` (strings compared and matched
+up to simple case folding: `ClassSetAlternativeStrings::fold` against `MaybeSimpleCaseFolding`).
+Not covered (the full statement is the one below without `hsup`): named back-references to
+duplicated names (needs the invariant "at most one group of a name participates", not threaded
+through the simulation) and properties of strings (the specification model does not have them).
+The input's `unicode` flag must be the pattern's (`inp.unicode = (f.u || f.v)`, as
+`Proofs/Keystone.lean` assumes too).  Legacy (non-`u`/`v`) `i` is excluded on purpose: the crate is
+known to differ from the specification there (finding F8).
 -/
 namespace Regress.Lower
 
@@ -97,7 +100,8 @@ Validity of the AST is not needed as a hypothesis: `toIR f a = .ok r` already im
 that matters (back-references in range, quantifier bounds in order, names resolvable).
 -/
 
-/-- **ES specification ⇒ IR semantics, one anchored attempt (stages A and B).** -/
+/-- **ES specification ⇒ IR semantics, one anchored attempt** (fragment `supported`; the full
+statement is this one without `hsup`). -/
 theorem lower_attempt_partial {f : ES.Flags} {a : ES.Node} {r : Regex} {inp : Input} {cs : List Nat}
     (hsup : supported (normalize a) (irFlags f) (normalize a) = true)
     (hir : toIR f a = .ok r) (ht : Utf8Text inp cs) (hiu : inp.unicode = (f.u || f.v)) (i : Nat)
@@ -300,6 +304,25 @@ example (r : Regex) (h : toIR { v := true } exAstS = .ok r) (fuel : Nat) (i : Na
       (ES.RER.ofFlags { v := true } (ES.countParens exAstS)) fuel i)
       (firstMatch exInpS r.node (Utf8.off [0x61, 0x62, 0x78] i)) :=
   lower_attempt_partial_nf exAstS_nf exAstS_supported h exInpS_text rfl i hi fuel
+
+/-- `/[\q{ab|k}&&[\q{AB}\u212A]]x/vi` on `"aBx"`: strings are compared up to case folding in `&&`
+(the defect found by this proof and fixed in the crate: commit f5d720f), and matched up to folding. -/
+def exAstSI : ES.Node :=
+  .cat [.vcls false .inter [.q [[0x61, 0x62], [0x6B]], .cls false .union [.q [[0x41, 0x42]], .c 0x212A]],
+        .char 0x78]
+
+theorem exAstSI_nf : normalize exAstSI = exAstSI := by rfl
+theorem exAstSI_supported : supported exAstSI (irFlags { i := true, v := true }) exAstSI = true := by
+  decide +kernel
+
+def exInpSI : Input := { kind := .utf8, bytes := Utf8.text [0x61, 0x42, 0x78], unicode := true }
+theorem exInpSI_text : Utf8Text exInpSI [0x61, 0x42, 0x78] := ⟨rfl, rfl, by decide⟩
+
+example (r : Regex) (h : toIR { i := true, v := true } exAstSI = .ok r) (fuel : Nat) (i : Nat) (hi : i ≤ 3) :
+    AttemptAgrees [0x61, 0x42, 0x78] (ES.matchAt #[0x61, 0x42, 0x78] exAstSI
+      (ES.RER.ofFlags { i := true, v := true } (ES.countParens exAstSI)) fuel i)
+      (firstMatch exInpSI r.node (Utf8.off [0x61, 0x42, 0x78] i)) :=
+  lower_attempt_partial_nf exAstSI_nf exAstSI_supported h exInpSI_text rfl i hi fuel
 
 end Regress.Lower
 
